@@ -3,6 +3,7 @@ package worlds
 import (
 	"fmt"
 	"net/http"
+	"net/url"
 	"strings"
 	"time"
 
@@ -34,15 +35,28 @@ type c03Fault struct {
 }
 
 type c03Sub struct {
-	idx       int
-	fault     c03Fault
-	faultID   int
-	followID  int
-	reqs      map[int]*ReqSpec
-	resps     map[int]*RespSpec
-	client    *Client
-	region    string
-	pipelined bool
+	idx           int
+	fault         c03Fault
+	faultID       int
+	followID      int
+	reqs          map[int]*ReqSpec
+	resps         map[int]*RespSpec
+	client        *Client
+	region        string
+	pipelined     bool
+	viaDownstream bool // the faulted exchange is a CONNECT refused by the downstream proxy
+}
+
+// c02IDFromHost extracts N from "xN.<domain>:port".
+func c02IDFromHost(h string) int {
+	if strings.HasPrefix(h, "x") {
+		if i := strings.IndexByte(h, '.'); i > 1 {
+			id := 0
+			fmt.Sscanf(h[1:i], "%d", &id)
+			return id
+		}
+	}
+	return -1
 }
 
 func runC03(k *kernel.K) {
@@ -132,6 +146,35 @@ func runC03(k *kernel.K) {
 	if k.W.Chance(1, 2) {
 		class = "enum"
 	}
+	if k.W.Chance(1, 6) {
+		// Every upstream contact goes through a downstream proxy, which refuses CONNECT requests
+		// with an answer of its own, cut at every offset (the failing upstream of this class).
+		class = "downstream"
+		u, _ := url.Parse("http://dsproxy.test:3128")
+		proxy.SetDownstreamProxy(u)
+		os = append(os, NewOrigin(k, n, "dsproxy.test:3128", func(oc *OConn, req *wire.Msg) *Reply {
+			if req.Method != "CONNECT" {
+				return plan(oc, req) // forwarded in absolute form: answer as the origin would
+			}
+			id := c02IDFromHost(req.Target)
+			attempts[id]++
+			rs := resps[id]
+			if rs == nil {
+				return &Reply{Raw: []byte("HTTP/1.1 500 Unplanned\r\nContent-Length: 0\r\n\r\n")}
+			}
+			raw := rs.Encode("GET")
+			f := faults[id]
+			if f.Kind == "cut" {
+				k.FaultFired("downstream_proxy_close_at_offset")
+				kk := f.K
+				if kk > len(raw) {
+					kk = len(raw)
+				}
+				return &Reply{Raw: raw[:kk], CloseAfter: true}
+			}
+			return &Reply{Raw: raw, Spec: rs}
+		}))
+	}
 	nextID := 1
 	mkReq := func(host string, withBody bool) *ReqSpec {
 		id := nextID
@@ -197,7 +240,22 @@ func runC03(k *kernel.K) {
 		return s
 	}
 
-	if class == "enum" {
+	if class == "downstream" {
+		shape := &RespSpec{Status: []int{403, 407, 503}[k.W.Draw(3)], Framing: []string{"cl", "chunked"}[k.W.Draw(2)], Body: bodyBytes(0, 'r', k.W.Range(0, 60))}
+		total := len(shape.Encode("GET")) + 4
+		for kk := 0; kk <= total+1; kk++ {
+			f := c03Fault{Kind: "cut", K: kk}
+			if kk == total+1 {
+				f = c03Fault{Kind: "none"}
+			}
+			s := addSub(f, origins[0], 0, shape)
+			fr := s.reqs[s.faultID]
+			host := fmt.Sprintf("x%d.tunnel.test:443", fr.ID)
+			*fr = ReqSpec{ID: fr.ID, Method: "CONNECT", Host: host, Path: host}
+			s.viaDownstream = true
+		}
+		k.Note("class=downstream refusal=%d %s/%dB cuts=0..%d", shape.Status, shape.Framing, len(shape.Body), total)
+	} else if class == "enum" {
 		host := origins[k.W.Draw(len(origins))]
 		shape := mkResp(0, 120)
 		// The encoded length does not depend on the id (fixed-width ids in bodies and a
